@@ -52,6 +52,12 @@ def build(reg, only=None):
         for k in ('test_for_specials', 'get_specials_spec'):
             if k in units['C14']:
                 units['C11'][k] = units['C14'][k]
+    # C01: the call parsers and the optional one-character marker are verified against the parser interface contract in C02
+    if 'C01' in units and 'C02' in units:
+        for k in ('_LatexCallableParserBase.parse', 'LatexOptionalCharsMarkerParser._parse_single[one-character marker]',
+                  'LatexOptionalCharsMarkerParser.parse[one-character marker]'):
+            if k in units['C02']:
+                units['C01'].setdefault(k, units['C02'][k])
     # the node tree's tiling (C01) rests on the tokenizer contracts of C11
     if 'C01' in units and 'C11' in units:
         for k, u in units['C11'].items():
